@@ -22,6 +22,7 @@ operands after use; one recycled result buffer; the product computed through the
 scan run inside the callback), and two scans whose passes alternate (two threads in lockstep); the LieTensor family has
 cumops callbacks that re-enter cumprod / cummul / cumops / the in-place methods.  Judged by exact sequential folds.
 """
+import os
 import itertools
 from ..common import *
 
@@ -830,8 +831,26 @@ def run(ctx):
     mat_cases(ctx, pp, torch, direct)
     # ---------------------------------------------------------------- (5) the operation as a callback: implementation styles, re-entrancy
     cb_cases(ctx, pp, torch, direct)
+    # ---------------------------------------------------------------- the schedule regenerated from the source text
+    # (second tie, harness/translate_cumops.py): the pass-count expression of cumops_ is translated into Coq integer
+    # arithmetic and the generated file proves, for every length L, gen_strides L = strides L (hence gen_cumops =
+    # cumops_model and the four wrappers = cumprod_model); the shape of cumops_ around it is matched, fail closed
+    gen_notes = None
+    try:
+        from ..translate_cumops import translate as tr_cumops, N_LEMMAS
+        gen_text, gen_notes = tr_cumops(os.environ.get('VERIF_REPO', '/repo'))
+        files.append(('CumopsGen', gen_text))
+    except Exception as e:     # Untranslatable, SyntaxError ...: fail closed
+        ctx.obligation_broken('translation:pypose/basics/ops.py -> Coq', '%s: %s' % (type(e).__name__, str(e)[:2000]))
     # ---------------------------------------------------------------- run Coq, collect
     res = run_case_files('C12', files, timeout=1200)
+    if 'CumopsGen' in res:
+        rc, out = res.pop('CumopsGen')
+        if rc != 0 or out.count('Closed under the global context') != N_LEMMAS:
+            ctx.obligation_broken('proof:generated schedule = Model/Cumops.v (gen_count_eq, gen_strides_eq, gen_cumops_eq, gen_cumprod_eq ...)', out[-2500:])
+        else:
+            ctx.notes.append('translator tie: gen_count / gen_strides / gen_cumops and the four wrappers regenerated from the working tree and proved equal to '
+                             'Model/Cumops.v for every length (%d lemmas, closed under the global context); %s' % (N_LEMMAS, '; '.join(gen_notes)))
     for name, (rc, out) in sorted(res.items()):
         ev = parse_evals(out)
         nexp = 2 if name != 'lie' else 1
